@@ -96,3 +96,32 @@ Definition try_into_unsigned (w : Z) (a : Z) : option Z :=
   let v := bfe_value a in if v <? 2 ^ w then Some v else None.
 Definition try_into_signed (w : Z) (a : Z) : option Z :=
   let v := bfe_value a in if v <? 2 ^ (w - 1) then Some v else None.
+
+(* ---- further public API (raw views, power_accumulator, Sum, cyclic group) *)
+(* power_accumulator<N, M>(base, tail): square every base element M times, then multiply by the tail element *)
+Definition power_accumulator (m : nat) (base tail : list Z) : list Z :=
+  map (fun bt => bfe_mul (sqn m (fst bt)) (snd bt)) (combine base tail).
+(* raw_bytes / raw_u16s: little-endian chunks of the Montgomery word; from_raw_* are their inverses *)
+Fixpoint le_chunks (w : Z) (n : nat) (x : Z) : list Z :=
+  match n with O => [] | S n' => (x mod 2 ^ w) :: le_chunks w n' (x / 2 ^ w) end.
+Fixpoint from_le_chunks (w : Z) (l : list Z) : Z :=
+  match l with [] => 0 | c :: r => c + 2 ^ w * from_le_chunks w r end.
+Definition raw_bytes (a : Z) : list Z := le_chunks 8 8 a.
+Definition raw_u16s (a : Z) : list Z := le_chunks 16 4 a.
+Definition is_canonical (x : Z) : bool := x <? P.
+(* Sum: reduce with +, zero for the empty iterator *)
+Definition bfe_sum (l : list Z) : Z :=
+  match l with [] => bfe_zero | x :: r => fold_left bfe_add r x end.
+(* get_cyclic_group_elements(max): [1, g, g^2, ...] until the power returns to one or `max` elements are collected
+   (the loop pushes before it tests, so at least two elements are returned); fuel bounds the loop *)
+Fixpoint cyclic_go (fuel : nat) (g v : Z) (maxn : option Z) (acc : list Z) : option (list Z) :=
+  match fuel with
+  | O => None
+  | S f =>
+      let acc := acc ++ [v] in
+      let v' := bfe_mul v g in
+      if (v' =? bfe_one) || (match maxn with Some m => Z.of_nat (length acc) >=? m | None => false end)
+      then Some acc else cyclic_go f g v' maxn acc
+  end.
+Definition cyclic_group_elements (fuel : nat) (g : Z) (maxn : option Z) : option (list Z) :=
+  cyclic_go fuel g g maxn [bfe_one].
